@@ -373,6 +373,24 @@ pub fn dispatch(cmd: &str, a: &HashMap<String, String>) -> Option<Value> {
     match cmd {
         "registry" => Some(batch(&out, &tier, seed)),
         "registry-repro" => Some(repro()),
+        // re-execute one schedule of one shape on the current tree (violation replays)
+        "registry-replay" => {
+            let shape_str = a.get("shape-str").cloned().unwrap_or_default();
+            let sched: Vec<usize> = serde_json::from_str(a.get("sched").map(|s| s.as_str()).unwrap_or("[]")).unwrap_or_default();
+            let sh = shapes("thorough").into_iter().find(|s| format!("{s:?}") == shape_str);
+            match sh {
+                None => Some(json!({"runs": 0, "error": "unknown shape"})),
+                Some(sh) => {
+                    let mut b = Batch::new(Some(out.as_str()));
+                    let mut ex = Explorer::new(Mode::Replay(sched), 0);
+                    ex.begin_run();
+                    let (evs, meta, _bad) = one_run(&sh, &mut ex);
+                    b.run(meta, &evs);
+                    b.finish();
+                    Some(json!({"runs": 1}))
+                }
+            }
+        }
         _ => None,
     }
 }
